@@ -59,6 +59,10 @@ impl ContentPack {
     }
 
     fn _get_cluster(&self, cluster_index: ClusterIdx) -> Result<Arc<Cluster>> {
+        #[cfg(jubako_verif)]
+        crate::verif::point(crate::verif::Event::ClusterMiss {
+            idx: cluster_index.into_u32(),
+        });
         let cluster_info = self.cluster_ptrs.index(*cluster_index)?;
         let cluster = self.reader.parse_data_block::<Cluster>(cluster_info)?;
         Ok(Arc::new(cluster))
@@ -66,6 +70,11 @@ impl ContentPack {
 
     fn get_cluster(&self, cluster_index: ClusterIdx) -> Result<Arc<Cluster>> {
         let mut cache = self.cluster_cache.lock().unwrap();
+        #[cfg(jubako_verif)]
+        crate::verif::point(crate::verif::Event::ClusterGet {
+            idx: cluster_index.into_u32(),
+            cached: cache.len(),
+        });
         let cached = cache.try_get_or_insert(cluster_index, || self._get_cluster(cluster_index))?;
         Ok(cached.clone())
     }
